@@ -921,6 +921,23 @@ static void simReport(void)
 	for (i = 0; i < P.nFf; i++)
 		simLog("F %d %s %d\n", P.ff[i].kind, P.ff[i].cls < 0 ? "any" : clsName[P.ff[i].cls], P.ff[i].fired);
 	simLogFlush();
+	/* CPU time used, for the orchestrator's budgets only: beside the log, never in it (the log is
+	 * the run's identity and holds nothing the kernel chooses) */
+	{
+		const char *lp = getenv("ALDORSIM_LOG");
+		struct timespec ts;
+		char pth[1100], buf[64];
+		int fd, n;
+		if (lp && strlen(lp) < 1000 && clock_gettime(CLOCK_PROCESS_CPUTIME_ID, &ts) == 0) {
+			snprintf(pth, sizeof pth, "%s.cpu", lp);
+			fd = open(pth, O_WRONLY | O_CREAT | O_TRUNC | O_CLOEXEC, 0644);
+			if (fd >= 0) {
+				n = snprintf(buf, sizeof buf, "%ld\n", (long) (ts.tv_sec * 1000 + ts.tv_nsec / 1000000));
+				if (write(fd, buf, (size_t) n) < 0) { /* nothing to do */ }
+				close(fd);
+			}
+		}
+	}
 }
 
 __attribute__((constructor)) static void simInit(void)
